@@ -101,7 +101,8 @@ def one_op(draw, cur):
     # ---- failure classes of the statement
     bad = draw(st.sampled_from(["missing_member", "missing_index", "index_beyond", "dash_not_allowed", "test_fail", "no_op", "no_path", "no_value",
                                 "no_from", "op_wrong_type", "path_wrong_type", "from_wrong_type", "move_into_child", "wrong_case_key",
-                                "unknown_op", "through_scalar", "leading_zero_index", "wrong_case_op"]))
+                                "unknown_op", "through_scalar", "leading_zero_index", "wrong_case_op", "bad_index_syntax", "bad_index_syntax",
+                                "move_same_missing"]))
     p = paths[draw(st.integers(0, len(paths) - 1))]
     opn = draw(st.sampled_from(OPNAMES))
 
@@ -121,6 +122,32 @@ def one_op(draw, cur):
         if o in (b"copy", b"move"):
             return full(o, b"/zz", frm=base + b"/no such member"), bad
         return full(o, base + b"/no such member"), bad
+    if bad == "bad_index_syntax":
+        # tokens that C number parsers accept but RFC 6901 does not: sign, blanks, hex, exponent
+        if not arrays:
+            return full(b"remove", b"/0/+0"), "missing_member"
+        a = arrays[draw(st.integers(0, len(arrays) - 1))]
+        n = len(rfc.node_at(cur, a)[1])
+        i = draw(st.integers(0, max(n - 1, 0)))
+        tok = draw(st.sampled_from([b"+%d", b" %d", b"\t%d", b"-%d", b"%d ", b"0x%d", b"%de0", b"%d.0", b" 0%d", b"+0%d", b"%d\n", b"\n%d"])) % i
+        o = draw(st.sampled_from(OPNAMES))
+        loc = ptr(a) + b"/" + tok
+        if o in (b"copy", b"move"):
+            if draw(st.booleans()):
+                return full(o, b"/zz", frm=loc), bad
+            return full(o, loc, frm=ptr(p)), bad
+        v = copy.deepcopy(rfc.node_at(cur, a)[1][i]) if n and o == b"test" else val
+        return full(o, loc, value=v), bad
+    if bad == "move_same_missing":
+        # "from" and "path" are the same pointer, which does not exist
+        cands = [b"/no such member", b"/zz/0"]
+        for a in arrays[:3]:
+            cands += [ptr(a) + b"/%d" % len(rfc.node_at(cur, a)[1]), ptr(a) + b"/-"]
+        scal = [q for q in paths if rfc.node_at(cur, q)[0] not in "AO"]
+        if scal:
+            cands.append(ptr(scal[0]) + b"/x")
+        loc = cands[draw(st.integers(0, len(cands) - 1))]
+        return full(b"move", loc, frm=loc), bad
     if bad in ("missing_index", "index_beyond", "dash_not_allowed", "leading_zero_index"):
         if not arrays:
             return full(b"remove", b"/0/0/0"), "missing_index"
